@@ -43,6 +43,18 @@ fn handle_case(
     let before = read_cell();
     let serial2 = 1 + rng.below(u32::MAX as u64 - 1) as u32;
     msg.dynheader.serial = NonZeroU32::new(serial2);
+    // header flags are not the handler's business: NO_REPLY_EXPECTED (1), NO_AUTO_START (2), ALLOW_INTERACTIVE_AUTHORIZATION
+    // (4) and undefined bits in any combination
+    msg.flags = *rng.pick(&[0u8, 0, 1, 2, 3, 4, 5, 7, 0x80, 0xff]);
+    // only a method CALL is answered: one message in four is a signal, a return or an error that names the same interface
+    // and member
+    let typ_code = if rng.below(4) == 0 { 2 + rng.below(3) as u8 } else { 1 };
+    msg.typ = match typ_code {
+        1 => rustbus::MessageType::Call,
+        2 => rustbus::MessageType::Reply,
+        3 => rustbus::MessageType::Error,
+        _ => rustbus::MessageType::Signal,
+    };
     let (res2, written2) = if dead {
         let (mut c2, s2) = peer::connect_pair(false);
         drop(s2);
@@ -65,7 +77,7 @@ fn handle_case(
     }
     let cell_s = |c: &Option<String>| c.clone().unwrap_or("~".into());
     let req2 = format!(
-        "c20.handle {} {} {} {} {} {} {} {} {}",
+        "c20.handle {} {} {} {} {} {} {} {} {} {}",
         serial2,
         cps(sender),
         i.map(cps).unwrap_or("~".into()),
@@ -74,7 +86,8 @@ fn handle_case(
         d1,
         d2,
         d3,
-        if dead { 0 } else { 1 }
+        if dead { 0 } else { 1 },
+        typ_code
     );
     let frames2 = peer::split_frames(&written2).unwrap_or_default();
     let mut reps = Vec::new();
@@ -98,12 +111,16 @@ fn handle_case(
         Err(_) => "senderr".to_string(),
     };
     let obs2 = format!("{} n={} {} cell={}", rs, frames2.len(), reps.join(" "), cell_s(&after));
+    if typ_code != 1 && (!matches!(res2, Ok(false)) || !written2.is_empty()) {
+        out.violation(&req2, &format!("a message that is not a method call ({:?}) was handled / answered: {:?}, {} bytes written", msg.typ, res2.as_ref().map_err(|_| ()), written2.len()));
+    }
     if written2.len() > 0 && frames2.is_empty() {
         out.violation(&req2, "bytes written that are not whole frames");
     }
     out.hit(match (&res2, dead, before.is_none()) {
         (Ok(true), _, true) => "handle_replied_fresh_store",
         (Ok(true), _, false) => "handle_replied_stored",
+        (Ok(false), _, _) if typ_code != 1 => "handle_not_a_call",
         (Ok(false), _, _) => "handle_nothandled",
         (Err(_), _, true) => "handle_refused_send_fresh_store",
         (Err(_), _, false) => "handle_refused_send_stored",
